@@ -97,7 +97,7 @@ func InstanceLoadForm(obj Instance) (form List) {
 						Symbol(name),
 					},
 				},
-				iv, // TBD handle more complex values
+				ValueLoadForm(iv),
 			},
 		)
 	}
